@@ -115,11 +115,15 @@ def run_c18(scn, dev, expect, mons):
     base.pop('runner')
     params = registry.base_params(base['opt'], **base.get('over', {}))
     a = harness.run_execution(base, dev, expect=expect)
-    with seams.paused():
-        inst = registry.OPTS[base['opt']]()
-        inst.set_config_parameters(params)
-    b = harness.run_execution(dict(base, lenient=True), dev, opt=inst)
     o = scn['opt']
+    try:
+        with seams.paused():
+            inst = registry.OPTS[base['opt']]()
+            inst.set_config_parameters(params)
+    except Exception as e:
+        return a, [('C18', f"C18|{o}|bare-construction-or-set_config_parameters-raises",
+                    f"params {base.get('over')}: {type(e).__name__}: {e}")]
+    b = harness.run_execution(dict(base, lenient=True), dev, opt=inst)
     finds = []
     if (a.exc is None) != (b.exc is None) or (a.exc and a.exc[:2] != b.exc[:2]):
         finds.append(('C18', f"C18|{o}|construction-paths-fail-differently", f"ctor(config): {a.exc}; "
@@ -131,3 +135,90 @@ def run_c18(scn, dev, expect, mons):
 
 
 RUNNERS = {'c12': run_c12, 'c08': run_c08, 'c18': run_c18}
+
+
+# ---------------------------------------------------------------------------------------------------------------
+AMBIENT = ['nothing', 'numpy-draws', 'stdlib-draws', 'both', 'unrelated-run']
+
+
+def _ambient(kind):
+    """what the process did with its random generators before the run under test"""
+    import random as _r
+    from .seams import ORIG, STD_ORIG, ORIG_SEED, STD_SEED
+    with seams.paused():
+        if kind in ('numpy-draws', 'both'):
+            ORIG_SEED(987)
+            ORIG['random'](100)
+        if kind in ('stdlib-draws', 'both'):
+            STD_SEED(654)
+            for _ in range(100):
+                STD_ORIG['random']()
+    if kind == 'unrelated-run':
+        harness.run_execution({'opt': 'GreyWolfOptimization', 'over': {'max_cycles': 2, 'fitness_error': None},
+                               'proto': 'cont2s', 'seed': 777})
+
+
+def c07_case(opt, proto, tseed, ambient):
+    scn = {'opt': opt, 'over': {'max_cycles': 3, 'fitness_error': None, 'early_stopping': None}, 'proto': proto,
+           'task_seed': tseed, 'seed': 31337 + len(ambient)}
+    _ambient(ambient)
+    ex = harness.run_execution(scn)
+    return ex, harness.h8((canon_result(ex.result), repr(ex.exc[:2]) if ex.exc else None))
+
+
+def run_c07(scn, dev, expect, mons):
+    """one optimizer: all (prototype, seed, ambient history) runs in this process + the same runs in a fresh
+    subprocess; all results of one (prototype, seed) must be identical"""
+    import json
+    import os
+    import subprocess
+    import sys
+    o = scn['opt']
+    finds, first, n, steps, ends = [], None, 0, 0, []
+    table = {}
+    for proto in scn['protos']:
+        for tseed, ambients in scn['seeds']:
+            ref = None
+            for amb in ambients:
+                ex, h = c07_case(o, proto, tseed, amb)
+                n += 1
+                steps += ex.steps
+                first = first or ex
+                for p, k, d in monitors.m_c07_escape(ex):
+                    finds.append((p, k, d))
+                if ex.exc is not None and ex.exc[0] == 'TypeError' and 'seed' in ex.exc[3].lower():
+                    finds.append(('C07', 'C07|seeded-run-raises', f"{o} seed {tseed}: {ex.exc}"))
+                if ref is None:
+                    ref = h
+                    table[f"{proto}|{tseed}"] = h
+                    ends.append(h)
+                elif h != ref:
+                    finds.append(('C07', f"C07|{o}|seeded-run-depends-on-ambient-state",
+                                  f"{proto} seed {tseed}: result after '{amb}' differs from the result after 'nothing'"))
+    if scn.get('subprocess', True):
+        env = dict(os.environ, PYTHONHASHSEED='random')
+        env.pop('VERIF_SEED', None)
+        req = json.dumps({'opt': o, 'protos': scn['protos'], 'seeds': [s for s, _ in scn['seeds']]})
+        try:
+            outp = subprocess.run([sys.executable, '-m', 'mc.c07child', req], env=env, capture_output=True, timeout=600,
+                                  cwd=os.path.dirname(os.path.dirname(os.path.abspath(__file__))))
+            child = json.loads(outp.stdout.decode().strip().splitlines()[-1])
+        except Exception as e:
+            raise harness.HarnessError(f"C07 child process failed for {o}: {e}")
+        n += len(child)
+        for k, h in child.items():
+            if table.get(k) != h:
+                finds.append(('C07', f"C07|{o}|seeded-run-differs-between-processes",
+                              f"{k}: fresh process gives another result than this process"))
+    first.extra['extra_execs'] = n - 1
+    first.extra['extra_steps'] = steps - first.steps
+    first.extra['extra_ends'] = ends
+    seen, uniq = set(), []
+    for f in finds:
+        if f[1] not in seen:
+            seen.add(f[1])
+            uniq.append(f)
+    return first, uniq
+
+
+RUNNERS['c07'] = run_c07
